@@ -119,6 +119,12 @@ def c14(ctx):
              "operand itself (outcome table by KIND; the same is_truthy that and/or/nor and the conditions use)")
     from .c03 import unary_rule
     unary_rule(ctx, "C14.R6")
+    rep.rule("C14.R9", "within one kind, ordering is the kind's own comparison and nothing else: compare(Number, Number) is f64::partial_cmp of "
+             "(self, other) or unordered, compare(String, String) is str::cmp of (self, other) -- the relations whose `Equal` is exactly the "
+             "derived equality `is` uses (R7), so `a <= b and a >= b` cannot hold for two strings that `is` tells apart (term anchors shared "
+             "with C03.R5)")
+    from .c03 import term_anchor_rule as _anchors
+    _anchors(ctx, "C14.R9")
     rep.rule("C14.R8", "`let x be <op> e` is always read as the compound form: in Parser::parse_let_assignment every non-error path passes the "
              "one optional match of the operator tokens {+, with, -, *, /} (whose outcome alone decides Assignment.operator) before the value is "
              "parsed -- no look-ahead at what follows the operator (a number, a literal ...) takes another route, so `let x be -5` and "
